@@ -305,6 +305,8 @@ MODES_WORLD = {
 
 def _gen_modes(rng):
     yield {'kind': 'modes', 'world': MODES_WORLD, 'opts': {'all': True}}
+    yield {'kind': 'modes', 'world': MODES_WORLD, 'opts': {'all': True, 'dup_path': 'nested'}}   # overlapping search paths
+    yield {'kind': 'modes', 'world': MODES_WORLD, 'opts': {'all': True, 'dup_path': True}}
     yield {'kind': 'modes', 'world': MODES_WORLD,
            'opts': {'repeat': 2, 'shuffle': True, 'seed': 11, 't': ['!ub']}}
     yield {'kind': 'modes', 'world': MODES_WORLD,
